@@ -1,5 +1,6 @@
 """Correspondence of the evaluator model (Shapes/Eval.v) with pyshacl.validate()."""
 from . import enc, framework as F, shapes as S
+from rdflib import URIRef
 
 PREAMBLE = (
     "From Coq Require Import List NArith ZArith QArith Bool.\n"
@@ -47,6 +48,8 @@ def model_vs_impl(tag, cases, check_fn="check_validate", shard=120):
                     foci.add(tr[0]); foci.add(tr[2])
                 for sh in c["shapes"]:
                     foci.update(sh["targets"]["nodes"])
+                foci.update(c.get("nodes", []))   # also nodes that occur in no triple (explicit focus_nodes may name them)
+                foci.update(c.get("lits", []))
                 ctx = {"data": c["data"], "foci": sorted(foci, key=lambda t: t.n3())}
             world, envs = "empty_world", S.env_to_coq(I, c["shapes"], ctx=ctx)
         body = "%s (%s) (%s) (%s) (%s) (%s) (%s)" % (
@@ -65,7 +68,10 @@ def model_vs_impl(tag, cases, check_fn="check_validate", shard=120):
 
 
 def show_model(tag, body, check_fn="check_validate"):
-    expr = body.replace(check_fn, "(fun W o sg g E _ => validate_impl W o sg g E)", 1)
+    if check_fn == "SEL":
+        expr = body.replace("check_validate_sel", "(fun use W o sg g E _ => validate_sel_impl W o sg g E use)", 1)
+    else:
+        expr = body.replace(check_fn, "(fun W o sg g E _ => validate_impl W o sg g E)", 1)
     return F.coq_show(tag, PREAMBLE, expr)
 
 
@@ -101,7 +107,7 @@ def standard_main(prop, prop_files, tier, seed, cases, rule, what, metamorphic=N
         if i in seen:
             continue
         d = S.describe_case(cases[i]["sg"], cases[i]["data"], cases[i]["opts"], obs[i])
-        d["model"] = show_model(tag, bodies[i], check_fn) if check_fn == "check_validate" else "see check function " + check_fn
+        d["model"] = show_model(tag, bodies[i], check_fn) if check_fn in ("check_validate", "SEL") else "see check function " + check_fn
         d["what"] = what
         rep.violation(d)
     if (not ob.ok or errors) and not rep.violations:
@@ -136,14 +142,19 @@ def standard_main(prop, prop_files, tier, seed, cases, rule, what, metamorphic=N
     return rep.finish()
 
 
-def base_case(rng, **kw):
+def base_case(rng, tmpls=None, p_focused=0.4, **kw):
     data, nodes, lits = S.gen_typed_data(rng, n_iri=rng.randint(2, 5), n_bn=rng.randint(0, 1), n_lit=rng.randint(0, 2), n_triples=rng.randint(2, 12))
-    if rng.random() < 0.4:
+    if rng.random() < p_focused:
         # focused case: one mechanism only, so that a wrong verdict of one shape is not masked by other shapes
-        tmpl = rng.choice([S.tmpl_custom, S.tmpl_severity, S.tmpl_qualified, S.tmpl_nested_severity])
+        tmpl = rng.choice(tmpls or [S.tmpl_custom, S.tmpl_severity, S.tmpl_qualified, S.tmpl_nested_severity])
         shapes = tmpl(rng, nodes, lits)
         if rng.random() < 0.3:
             shapes[0]["targets"]["nodes"] = shapes[0]["targets"]["nodes"][:1]
+        if rng.random() < 0.5:
+            # several values per focus node and predicate: counting constraints are decided by more than one value
+            for f in shapes[0]["targets"]["nodes"]:
+                for _ in range(rng.randint(2, 4)):
+                    data.add((f, URIRef(rng.choice(S.PREDS[:2])), rng.choice(nodes + lits)))
     else:
         shapes = S.gen_shapes(rng, nodes, lits, n_shapes=rng.randint(2, 7), **kw)
         S.add_templates(rng, shapes, nodes, lits)
